@@ -87,6 +87,21 @@ impl SignedPeersStore {
     }
 }
 
+#[cfg(mainline_verif)]
+impl SignedPeersStore {
+    /// (info hashes held, largest number of peers under one info hash)
+    pub(crate) fn verif_sizes(&self) -> (usize, usize) {
+        (
+            self.info_hashes.len(),
+            self.info_hashes
+                .iter()
+                .map(|(_, peers)| peers.len())
+                .max()
+                .unwrap_or(0),
+        )
+    }
+}
+
 #[cfg(test)]
 mod test {
     use ed25519_dalek::SigningKey;
